@@ -6,8 +6,8 @@ internal/conf/decrypt/decrypt.go).
 What is modelled
 * `decrypt`      : `decrypt.Decrypt` with base64 and secretbox as oracle parameters; the slicing
                    `enc[:24]`, `enc[24:]` is explicit and guarded by the length check.
-* `envNilReceiver`: the decidable class of environment keys for which `env.loadEnvInternal` calls
-                   `UnmarshalEnv` on a nil pointer (open finding, modelled exactly in C09).
+* `envNilReceiver`: regression record — the class of environment keys for which `env.loadEnvInternal` called
+                   `UnmarshalEnv` on a nil pointer before /repo 7bda13e (modelled exactly in C09).
 * `validate`     : `Conf.Validate` + `Path.validate` on an abstract view `ConfV` of the configuration (every
                    field a check or a deprecated-parameter override looks at). URL/regexp/path-name/MP4
                    validity are oracle booleans carried in the view.
@@ -85,7 +85,7 @@ def loadDecrypt (rk mk : Option StageCol) : Outcome Unit :=
   | .ok _ => stage mk
   | o => o
 
-/-! ### env: the one remaining panic of the loader (decidable class of the open finding) -/
+/-! ### env: regression record of the last panic of the loader (fixed in /repo 7bda13e) -/
 
 /-- `pu` = variable names of optional (pointer) parameters with an `UnmarshalEnv` method that are unset after the
 file has been read. `loadEnvInternal` applies its "some variable has this prefix ⇒ call UnmarshalEnv with the empty
